@@ -107,8 +107,13 @@ CHECKS['C06'] = dict(
     text='CLAUSE decided: str_to_dec, from_str and the TryFrom<&str|String> forwarders never panic and never read outside the string, for slices of every length 0..=isize::MAX: no bounds-check, arithmetic-overflow (usize/isize), cast or debug-assertion failure edge is feasible, and at each of the 14 unsafe call sites of the parser the precondition (get_unchecked(n..): n <= len; read_unaligned::<u64>: len >= 8) holds. NOT decided: the accepted grammar, the value returned and the completeness of overflow detection (the known value-level defect from_str("440282366920938463463374607431768211456") = Ok(10^38) is outside this clause).',
     note=TB + 'slice/pointer models track lengths only.')
 
+CHECKS['C07'] = dict(
+    category='other', design_ref='DESIGN.md section 5 C07 (as built: section 12.10)',
+    technique=ABSINT + ' with the formatting machinery modelled structurally (decoded format_args! template + argument terms; pad_integral under the default formatter); the three rendering functions are interpreted one after the other on the same path so that their outputs are compared under one path condition',
+    text='CLAUSE decided (the three renderings are one canonical string): for all 19 scales x sign classes of the coefficient, Display::fmt under the default formatter (= to_string(), which is core\'s blanket impl), String::from(Decimal) and the text between "Dec!(" and ")" of Debug::fmt hand the same sequence of pieces to core::fmt: "-" iff x < 0, the decimal rendering of int, and iff p > 0 a "." and frac zero-padded to width p, with int >= 0, 0 <= frac < 10^p and int*10^p + frac = |x|. NOT decided: that parsing this string returns the same Decimal (depends on the value semantics of the parser, which C06 does not decide) and the serde-as-str clause.',
+    note=TB + 'core::fmt: integer Display (no leading zeros, "-" + |v|), zero padding to a width, pad_integral under the default formatter, the template encoding of fmt::Arguments of the nightly used for extraction.')
+
 NOT_APPLICABLE = {
-    'C07': 'Display/parse round trip is a value-level property of run-time digit strings across two algorithms (core::fmt and a byte parser); no structural clause that is both necessary and checkable without executing or symbolically solving; see DESIGN.md section 7.',
     'C12': 'Bit-exact float rounding of Decimal -> f64/f32 over 2^127 x 19 inputs: no sound static abstract domain in reach relates the produced bit pattern to the nearest float; see DESIGN.md section 7.',
     'C13': 'f64/f32 -> Decimal quantifies over all bit patterns through a data-dependent long-division loop with a non-linear invariant; not decidable by the static machinery; see DESIGN.md section 7.',
 }
